@@ -332,6 +332,10 @@ REJECT_SHAPES = [
     ("MD", (2, 2), "MD", (2, 3)), ("MD", (2, 3), "MD", (2, 2)), ("MD", (2, 2), "MD", (3, 2)), ("MD", (3, 2), "MD", (2, 3)),
     ("MD", (2, 2), "VD", (3, 1)), ("VD", (3, 1), "MD", (2, 2)), ("MD", (2, 2), "RD", (1, 3)), ("RD", (1, 3), "MD", (2, 2)),
     ("RD", (1, 2), "VD", (2, 1)), ("VD", (2, 1), "RD", (1, 2)),
+    # a vector of the wrong orientation whose length equals the matrix's OTHER dimension (and exceeds the one it would be applied
+    # along): a shape guard that only compares "length == rows or length == cols" accepts these, and the broadcast kernels then
+    # read a prefix of the vector (seeded change C01-2)
+    ("MD", (2, 3), "VD", (3, 1)), ("VD", (3, 1), "MD", (2, 3)), ("MD", (3, 2), "RD", (1, 3)), ("RD", (1, 3), "MD", (3, 2)),
 ]
 
 
@@ -483,7 +487,7 @@ def plan(tier, seed):
                     # the quick tier for one operator per crate whose kernels zip the operands (nalgebra's own shape asserts, which
                     # guard + and -, do not help there): reverting the shape checks of the dispatch arms must be noticed by `quick`
                     rq = q
-                    if n == 0 and lib in ("Mul", "GT", "And") and k in (0, 2, 3, 4):
+                    if n == 0 and lib in ("Mul", "GT", "And") and k in (0, 2, 3, 4, 14, 17):
                         rq = "quick"
                     hs.append(gen_bin_l2_reject(lib, t, k, rq))
                 if n > 0:
